@@ -168,7 +168,10 @@ fn chance_weights_differ(g: &MNode, r: &mut Rng) -> Option<MNode> {
     }
     let (name, c) = r.pick(&cands).clone();
     let mut which = r.below(c as u64) as isize;
-    fn go(n: &MNode, name: &str, which: &mut isize) -> MNode {
+    // or: the node gets one more outcome of negligible weight (the common outcomes then agree to
+    // within rounding, but the two nodes do not have the same distribution)
+    let extra = r.coin(0.4);
+    fn go(n: &MNode, name: &str, which: &mut isize, extra: bool) -> MNode {
         match n {
             MNode::T(x) => MNode::T(*x),
             MNode::C { info, outs } => {
@@ -177,12 +180,16 @@ fn chance_weights_differ(g: &MNode, r: &mut Rng) -> Option<MNode> {
                     *which -= 1;
                     hit = *which == -1;
                 }
-                MNode::C { info: info.clone(), outs: outs.iter().enumerate().map(|(k, (a, w, c))| (a.clone(), if hit && k == 0 { *w + 7.0 } else { *w }, go(c, name, which))).collect() }
+                let mut o: Vec<(String, f64, MNode)> = outs.iter().enumerate().map(|(k, (a, w, c))| (a.clone(), if hit && !extra && k == 0 { *w + 7.0 } else { *w }, go(c, name, which, extra))).collect();
+                if hit && extra {
+                    o.push(("zz one more".to_string(), 1e-12, MNode::T(0.0)));
+                }
+                MNode::C { info: info.clone(), outs: o }
             }
-            MNode::P { player, info, acts } => MNode::P { player: *player, info: info.clone(), acts: acts.iter().map(|(a, c)| (a.clone(), go(c, name, which))).collect() },
+            MNode::P { player, info, acts } => MNode::P { player: *player, info: info.clone(), acts: acts.iter().map(|(a, c)| (a.clone(), go(c, name, which, extra))).collect() },
         }
     }
-    Some(go(g, &name, &mut which))
+    Some(go(g, &name, &mut which, extra))
 }
 
 /// merge two infosets of one player that have the same number of actions but follow
